@@ -24,7 +24,7 @@ def parseDoc (j : Json) : LDoc :=
 
 def cfg : Cfg LDoc where
   isEmpty d := d.text.isEmpty
-  tok d := tokenize d.cls d.toks
+  tok d := tokenize d.cls d.text d.toks
 
 def dataJ (d : Data) : Json := natArr (d.map (·.toNat))
 
@@ -60,17 +60,12 @@ def nTypes : Nat := legendTypes.length
 def nMods : Nat := legendMods.length
 
 /-- Which known deviation explains a token that does not cover its lexeme (source token `t`,
-    model token `s`); `none` = unexplained. -/
-def excuse (cls : Classes) (text : Bytes) (s : SemToken) (t : Token) : Option String :=
+    model token `s`); `none` = unexplained.  The only open one is `crlf-comment-length`; the
+    findings code-length, quoted-commodity-length, tag-byte-offsets, tag-search-position,
+    text-trimmed-position and nonbmp-column are repaired and excuse nothing any more. -/
+def excuse (s : SemToken) (t : Token) : Option String :=
   let isTag := t.ty == .comment && (s.ty == tyTag || s.ty == tyTagValue)
   if devPipe t then some "pipe-position"
-  else if devCode t then some "code-length"
-  else if devQuoted t then some "quoted-commodity-length"
-  else if isTag && devTagBytes t (s.col.toNat + s.len.toNat - t.pos.col) then some "tag-byte-offsets"
-  else if devNonBmpBefore text (lexemeRange text t).1 then some "nonbmp-column"
-  else if isTag && devNonBmpBefore text t.stop.off then some "nonbmp-column"
-  else if isTag && devTagSkippedPart cls t then some "tag-search-position"
-  else if devTextTrim text t then some "text-trimmed-position"
   else if !isTag && devCrComment t then some "crlf-comment-length"
   else none
 
@@ -93,7 +88,7 @@ def Verdict.excused (v : Verdict) (id : String) (why : String) : Verdict :=
 def judge (d : LDoc) (impl : Data) : Verdict := Id.run do
   let abs := decode impl
   let lens := lineLens16 d.text
-  let src := tokenizeSrc d.cls d.toks
+  let src := tokenizeSrc d.cls d.text d.toks
   let aligned := encodeTokens (src.map (·.1)) == impl
   let mut v : Verdict := {}
   if impl.length % 5 != 0 then v := v.fail "array length is not a multiple of 5"
@@ -112,7 +107,7 @@ def judge (d : LDoc) (impl : Data) : Verdict := Id.run do
       if !ok then
         let what := s!"token {i} (line {a.line} start {a.start} len {a.len} type {a.ty}) " ++
           (if inLine lens a then "does not cover its lexeme" else "leaves its line")
-        match excuse d.cls d.text s t with
+        match excuse s t with
         | some id => v := v.excused id what
         | none => v := v.fail what
     else
@@ -133,17 +128,17 @@ def verdictFields (v : Verdict) (dom : Bool) : List (String × Json) :=
   [("spec_ok", !dom || v.ok), ("in_domain", dom),
    ("known", toJson (if v.unexplained then ([] : List String) else v.known)), ("why", v.why)]
 
-/-- The hypotheses of `ordered_disjoint_inline_partial` and `covers_lexeme_partial`
-    (HL/Props/C17.lean) evaluated on this lexer output: when they hold the theorems say the model's
-    tokens pass the validators (so `hyp_ok → spec_ok` on every case where model = impl). -/
+/-- The lexer's contract (HL/Spec/SemTokSpec.lean) on this lexer output: the hypotheses of
+    `ordered_disjoint`, `encode_decode_tokenize` and `tag_tokens_placed` (HL/Props/C17.lean). -/
+def contractOk (d : LDoc) : Bool :=
+  extentsB d.text d.toks && cutsB d.text d.toks && (mappedBody d.toks).all (lineOk d.text)
+
+/-- ... together with the one guard of `ordered_disjoint_inline_partial` and
+    `covers_lexeme_partial` (no comment value ends with a CR): when they hold the theorems say
+    the model's tokens are ordered, disjoint, inside their lines, and every token that is not
+    cut out of a comment covers its lexeme. -/
 def hypOk (d : LDoc) : Bool :=
-  let cls := d.cls
-  spacedB cls d.toks && inlineB (lineLens16 d.text) cls d.toks &&
-  (tokenizeSrc cls d.toks).all fun (s, t) =>
-    if t.ty == .comment && !(extractTags cls t).isEmpty then
-      !devTagBytes t (s.col.toNat + s.len.toNat - t.pos.col) && !devNonBmpBefore d.text t.stop.off &&
-      !devTagSkippedPart cls t
-    else faithful d.text t
+  contractOk d && (mappedBody d.toks).all fun t => !devCrComment t
 
 def tokens (j : Json) : Json :=
   let d := parseDoc (jget j "doc")
@@ -153,7 +148,7 @@ def tokens (j : Json) : Json :=
   let v := judge d impl
   let hyp := hypOk d
   Json.mkObj ([("model", dataJ data), ("nontrivial", dom && !impl.isEmpty && v.ok && hyp),
-    ("hyp_ok", hyp)] ++ verdictFields v dom)
+    ("hyp_ok", hyp), ("contract_ok", contractOk d)] ++ verdictFields v dom)
 
 def absJ (a : AbsTok) : Json := natArr [a.line, a.start, a.len, a.ty, a.mods]
 
